@@ -87,7 +87,8 @@ def catalog(tier="quick", labels="int"):
     words = ["X", "Y", "ZX", "XYZ"] if tier == "quick" else ["X", "Y", "Z", "XX", "YZ", "ZX", "IY", "XYZ", "ZZZ", "XIY", "YYXZ"]
     for w in words:
         add(f"PauliRot[{w}]", 1, lambda w=w: qp.PauliRot(var_array(0), w, wires=list(range(len(w)))))
-    mcx = [(2, "11", 0, None), (3, "101", 0, None), (3, "111", 1, "zeroed"), (3, "110", 1, "borrowed"), (4, "1111", 2, "zeroed")]
+    mcx = [(2, "11", 0, None), (3, "101", 0, None), (3, "111", 1, "zeroed"), (3, "110", 1, "borrowed"), (4, "1111", 2, "zeroed"),
+           (3, "111", 2, "borrowed"), (4, "1111", 3, "borrowed")]      # more work wires than the rule needs
     # every control-value pattern for 1..3 controls (the rules have special cases for few controls and for zeros)
     import itertools as _it
     for _nc in (1, 2, 3):
